@@ -13,6 +13,14 @@ add("C01", "exploration",
     "Exhaustive enumeration, on the real Context with harness plugin graphs (chain, filter, same-kind merge, two-kind loop, multi-output, overlap window, down-chunking, exhaust), of every disjoint source row set of <=3 rows x every law-abiding chunking (incl. empty / zero-duration chunks, independent per source) x processor/worker/lazy/capacity/rechunk cells x every pre-stored subset of data types; oracle = whole-run evaluation of the graph + contiguity + re-read of everything stored from a fresh context. Threaded runs execute under the controlled scheduler; a slice is explored over thread schedules (delay-bounded, stateless).",
     "small-scope hypothesis (<=3 rows/source, 5-point grid); enumerated threaded cells run one fixed schedule, schedules are exhausted only to delay bound 1-2 for the slice named in the evidence; no real OS processes",
     "bounded exhaustive enumeration of inputs x configurations on the implementation (+ delay-bounded schedule exploration under a controlled scheduler) vs whole-run reference", "graphs")
+add("C03", "exploration",
+    "Exhaustive enumeration of every sorted interval array (<=3-4 rows) x every law-abiding chunk sequence x dtype x compressor x save-rechunk setting x serial/thread-pool saving x plain/executor/rechunk-on-load reading through the real FileSaver.save_from and backend loader; oracle: rows bit-identical in order, same overall range, contiguous chunks, boundaries equal to the written ones (no rechunk) or in row-free gaps (rechunk), and every metadata field consistent with the files on disk. Thorough additionally explores the completion orders of pool writes under the controlled scheduler.",
+    "small-scope hypothesis (<=4 rows, 6-point grid); dtype/compressor/executor rotate over inputs in quick; pool writes run under a fixed schedule except in the thorough schedule slice",
+    "bounded exhaustive enumeration of inputs x configurations on the implementation vs written data", "smallscope")
+add("C04", "fault_enumeration",
+    "Every mutating file-system operation (makedirs, create, each write, rename, remove, rmtree) issued by 14 write histories (Context.make / get_array of chain, diamond and multi-output graphs with the single-thread and threaded processors, worker pools, rechunking, bare Saver.save_from with and without thread pool, copy_to_frontend, overwrite of broken data) is enumerated from a logged fault-free run; for every operation x {ENOSPC, ENOSPC after half write, death before, death after, death with torn write} the real code is re-run, then a FRESH Context must find every type it reports stored complete and equal to the reference, the caller must have seen the I/O error, and an identical retry must succeed and leave valid data. Thorough adds a second fault during the retry.",
+    "process death = no later file-system operation happens (completed ones persist); threaded histories run under the deterministic default schedule of the controlled scheduler; no real forked savers",
+    "exhaustive fault / crash-point enumeration over the logged write history of the implementation (file-system interposer)", "fsfault")
 add("C05", "model_checking",
     "Explicit-state model checking of the real strax.Mailbox: the complete reachable state graph (all thread schedules at lock/condition/thread-start/join/future granularity) of small sender/reader/worker configurations is explored by a stateless DFS with canonical-state pruning under a controlled scheduler that replaces strax.mailbox.threading; every terminal state must show exact in-order delivery to every subscriber and every state must respect the capacity; deadlock states are violations.",
     "atomicity between scheduling points (mailbox state only touched under its RLock); no condition time-outs or spurious wake-ups; canonical state hashing (cross-checked against stateless exploration at delay bound 1); bounds: <=3 subscribers, <=4-5 messages, capacity <=4",
